@@ -398,6 +398,10 @@ var operatorMap = map[Token]int{
 	DIV:      DIV,
 	MOD:      1, //fixme
 
+	BITWISE_AND: BITWISE_AND,
+	BITWISE_OR:  BITWISE_OR,
+	BITWISE_XOR: BITWISE_XOR,
+
 	MATCH:       MATCH,
 	MATCHPHRASE: MATCHPHRASE,
 	IPINRANGE:   IPINRANGE,
